@@ -25,6 +25,12 @@ Section Sim.
   Definition RX (x1 : xstate (I:=I1)) (x2 : xstate (I:=I2)) : Prop :=
     x_sh x1 = x_sh x2 /\ x_off x1 = x_off x2 /\ x_evs x1 = x_evs x2 /\ RI (x_in x1) (x_in x2).
 
+  (* nested loops of the two instances are related (closed by induction on
+     the nesting level in Proofs.v) *)
+  Hypothesis nest_sim : forall s x1 x2, RX x1 x2 ->
+    RX (fst (op_nest ops1 s x1)) (fst (op_nest ops2 s x2)) /\
+    snd (op_nest ops1 s x1) = snd (op_nest ops2 s x2).
+
   Lemma RX_intro sh off evs i1 i2 : RI i1 i2 -> RX (mkX sh i1 off evs) (mkX sh i2 off evs).
   Proof. intros H. repeat split; assumption. Qed.
 
@@ -111,6 +117,9 @@ Section Sim.
       destruct IHc as [Hy _]. pose proof (RX_status _ _ Hy) as Hs.
       destruct HR as [H1 _]. destruct Hy as [_ [G2 [G3 G4]]].
       rewrite H1, Hs. split; [|reflexivity]. repeat split; cbn; assumption.
+    - pose proof (nest_sim s _ _ HR) as Hn.
+      destruct (op_nest ops1 s x1) as [y1 e1]. destruct (op_nest ops2 s x2) as [y2 e2].
+      exact Hn.
   Qed.
 
   Lemma pull_loop_sim (fuel : nat) : forall sts fed s1 s2 i1 i2 off eof,
@@ -191,6 +200,74 @@ Section Sim.
     - pose proof (iter_sim pf _ _ HR) as Hi.
       destruct (iter ops1 parser pf m1) as [n1|f1], (iter ops2 parser pf m2) as [n2|f2];
         cbn in Hi; try contradiction; [now apply IH | assumption].
+  Qed.
+
+  Definition Rresx (r1 : mstate (I:=I1) (SRC:=S1) + (ftag * xstate (I:=I1)))
+                   (r2 : mstate (I:=I2) (SRC:=S2) + (ftag * xstate (I:=I2))) : Prop :=
+    match r1, r2 with
+    | inl m1, inl m2 => RM m1 m2
+    | inr (t1, x1), inr (t2, x2) => t1 = t2 /\ RX x1 x2
+    | _, _ => False
+    end.
+
+  Lemma iterx_sim (pf : nat) (m1 : mstate) (m2 : mstate) :
+    RM m1 m2 -> Rresx (iterx ops1 parser pf m1) (iterx ops2 parser pf m2).
+  Proof.
+    intros [HX [HS [He [Hpe [Hfe Hhi]]]]]. unfold iterx. pose proof HX as [H1 [H2 [H3 H4]]].
+    rewrite H1, H2, H3, He, Hpe, Hfe, Hhi.
+    set (sts := (if m_pend m2 then m_hist m2 else []) ++ [s_ps (x_sh (m_x m2))]).
+    pose proof (parse_phase_sim pf sts (m_pend m2) (m_fed m2) _ _ _ _ (x_off (m_x m2)) (m_eof m2) HS H4) as Hp.
+    destruct (parse_phase ops1 parser pf sts (m_pend m2) (m_fed m2) (m_src m1) (x_in (m_x m1))
+                (x_off (m_x m2)) (m_eof m2)) as [ph1 [[[[g1 t1] j1] o1] e1]].
+    destruct (parse_phase ops2 parser pf sts (m_pend m2) (m_fed m2) (m_src m2) (x_in (m_x m2))
+                (x_off (m_x m2)) (m_eof m2)) as [ph2 [[[[g2 t2] j2] o2] e2]].
+    destruct Hp as [-> [-> [-> [-> [HS' HI']]]]].
+    assert (HX' : RX (mkX (x_sh (m_x m2)) j1 o2 (x_evs (m_x m2)))
+                     (mkX (x_sh (m_x m2)) j2 o2 (x_evs (m_x m2)))) by now apply RX_intro.
+    destruct ph2 as [r| |]; try (cbn; split; [reflexivity | now apply RX_with_status]).
+    destruct r; try (cbn; split; [reflexivity | (now apply RX_with_status) || assumption]).
+    pose proof (exec_sim c _ _ HX') as Hc.
+    destruct (exec ops1 c _) as [y1 x1e]. destruct (exec ops2 c _) as [y2 x2e].
+    destruct Hc as [Hy ->]. destruct x2e; cbn.
+    - split; [reflexivity | assumption].
+    - repeat split; try assumption; apply Hy.
+  Qed.
+
+  Lemma loopx_sim (fuel pf : nat) : forall m1 m2, RM m1 m2 ->
+    fst (loopx ops1 parser fuel pf m1) = fst (loopx ops2 parser fuel pf m2) /\
+    RX (snd (loopx ops1 parser fuel pf m1)) (snd (loopx ops2 parser fuel pf m2)).
+  Proof.
+    induction fuel as [|f IH]; intros m1 m2 HR; cbn [loopx].
+    - cbn [fst snd]. split; [reflexivity | apply RX_with_status; apply HR].
+    - pose proof (iterx_sim pf _ _ HR) as Hi.
+      destruct (iterx ops1 parser pf m1) as [n1|[t1 y1]], (iterx ops2 parser pf m2) as [n2|[t2 y2]];
+        cbn in Hi; try contradiction; [now apply IH | exact Hi].
+  Qed.
+
+  Lemma nest_result_sim t x1 x2 : RX x1 x2 ->
+    RX (fst (nest_result (t, x1))) (fst (nest_result (t, x2))) /\
+    snd (nest_result (t, x1)) = snd (nest_result (t, x2)).
+  Proof.
+    intros H. pose proof (RX_status _ _ H) as Hs.
+    destruct t; cbn [nest_result fst snd]; (split; [|reflexivity]);
+      try assumption; try (rewrite Hs); now apply RX_with_status.
+  Qed.
+
+  (* the nested loops one level up are related again *)
+  Lemma nest_with_sim (mk1 : nsrc -> S1) (mk2 : nsrc -> S2) fuel pf :
+    (forall s, RS (mk1 s) (mk2 s)) ->
+    forall s x1 x2, RX x1 x2 ->
+    RX (fst (nest_with ops1 parser mk1 fuel pf s x1)) (fst (nest_with ops2 parser mk2 fuel pf s x2)) /\
+    snd (nest_with ops1 parser mk1 fuel pf s x1) = snd (nest_with ops2 parser mk2 fuel pf s x2).
+  Proof.
+    intros Hmk s x1 x2 HR. unfold nest_with. destruct (nsrc_empty s).
+    - cbn [fst snd]. split; [now apply RX_with_status | reflexivity].
+    - assert (HM : RM (mkM x1 (mk1 s) false false [] []) (mkM x2 (mk2 s) false false [] [])).
+      { repeat split; try apply HR. apply Hmk. }
+      destruct (loopx_sim fuel pf _ _ HM) as [Ht Hx].
+      destruct (loopx ops1 parser fuel pf _) as [t1 y1].
+      destruct (loopx ops2 parser fuel pf _) as [t2 y2].
+      cbn [fst snd] in Ht, Hx. subst t2. now apply nest_result_sim.
   Qed.
 
   Lemma iter_n_sim (n pf : nat) : forall m1 m2, RM m1 m2 ->
